@@ -5,7 +5,7 @@ sys.path.insert(0, os.path.dirname(os.path.abspath(__file__)))
 from common import *
 from wesym.contracts import crypto, seqchan
 
-PKGS = [MOD + '/pkg/secretstore', MOD + '/pkg/cryptoutil', MOD + '/pkg/protocoltypes', MOD + '/pkg/errcode', 'encoding/binary']
+PKGS = [MOD + '/pkg/secretstore', MOD + '/pkg/cryptoutil', MOD + '/pkg/protocoltypes', MOD + '/pkg/errcode', MOD + '/pkg/ipfsutil', 'encoding/binary']
 
 
 def main():
